@@ -222,6 +222,44 @@ fn write_forwarded_suffix(
     );
 }
 
+/// Reason why the head of an HTTP/1.x request must be answered with 400
+/// instead of being forwarded, `None` when it is acceptable (or not H1).
+///
+/// Kawa treats any `Transfer-Encoding` value that *ends with* `chunked` as
+/// chunked, ignores every other value (trailing whitespace, `chunked, identity`,
+/// `identity`, ...) and forwards the field verbatim either way. Sōzu and the
+/// backend can then disagree on where the body ends (RFC 9112 §6.1, §6.3):
+/// only a single `chunked` coding, on HTTP/1.1, is unambiguous.
+fn invalid_h1_request_head(request: &GenericHttpStream) -> Option<&'static str> {
+    let version = match &request.detached.status_line {
+        kawa::StatusLine::Request { version, .. } => version,
+        _ => return None,
+    };
+    if !matches!(version, kawa::Version::V10 | kawa::Version::V11) {
+        return None;
+    }
+    let buf = request.storage.buffer();
+    let mut transfer_encodings = 0;
+    for block in &request.blocks {
+        let kawa::Block::Header(header) = block else {
+            continue;
+        };
+        if header.is_elided() {
+            continue;
+        }
+        if compare_no_case(header.key.data(buf), b"transfer-encoding") {
+            transfer_encodings += 1;
+            if matches!(version, kawa::Version::V10) {
+                return Some("Transfer-Encoding in an HTTP/1.0 request");
+            }
+            if transfer_encodings > 1 || !compare_no_case(header.val.data(buf), b"chunked") {
+                return Some("Transfer-Encoding is not a single chunked coding");
+            }
+        }
+    }
+    None
+}
+
 /// This is the container used to store and use information about the session from within a Kawa parser callback
 #[derive(Debug)]
 pub struct HttpContext {
@@ -561,6 +599,8 @@ impl HttpContext {
         // so the postcondition can pin "blocks only grow" for the whole edit.
         let blocks_at_entry = request.blocks.len();
 
+        let invalid_head = invalid_h1_request_head(request);
+
         // RFC 9112 §6.3: an HTTP/1.x request with neither Transfer-Encoding
         // nor Content-Length has no body. Kawa leaves it in the close-delimited
         // `Body` phase (which only exists for responses) and would swallow the
@@ -599,6 +639,13 @@ impl HttpContext {
                 .data_opt(buf)
                 .and_then(|data| from_utf8(data).ok())
                 .map(ToOwned::to_owned);
+        }
+
+        // Refuse (400, like any other H1 parse error) rather than edit and
+        // forward a head whose framing the backend may read differently.
+        if let Some(message) = invalid_head {
+            request.parsing_phase.error(message.into());
+            return;
         }
 
         // if self.method == Some(Method::Get) && request.body_size == kawa::BodySize::Empty {
